@@ -43,6 +43,9 @@ type Case struct {
 	// Bufio > 0: the scanner reads through a bufio.Reader of that size wrapped
 	// around the simulated reader.
 	Bufio int `json:"bufio,omitempty"`
+	// Tree: GuessPaths and AnalyzeSources are on, over the static directory
+	// tree (StaticTree) in which the source paths the generator uses resolve.
+	Tree bool `json:"tree,omitempty"`
 	// NameArgs mirrors Opts.NameArguments.
 	NameArgs bool `json:"name_args"`
 	// Extra carries engine-specific material (map orders, task scripts…).
@@ -76,6 +79,10 @@ func (c *Case) Stream() *gen.Stream {
 // Opts builds the library options of a case. No disk access: the claimed
 // stream properties do not involve it.
 func (c *Case) Opts() *stack.Opts {
+	if c.Tree {
+		goroot, gopaths := StaticTree()
+		return &stack.Opts{NameArguments: c.NameArgs, GuessPaths: true, AnalyzeSources: true, LocalGOROOT: goroot, LocalGOPATHs: gopaths}
+	}
 	return &stack.Opts{NameArguments: c.NameArgs}
 }
 
